@@ -304,10 +304,12 @@ def prepare(job, workdir, rng_cls):
       # 'history': constructor arguments of several instances of the same class, ALL elaborated in this process (each as its
       # own top, in the given order) before instance number d['pick'] is translated; the emitted text of that instance is
       # compared with the simulation of a further instance built with the same arguments
+      # (the instance that is simulated is elaborated FIRST, so that the last elaboration before the translation is the
+      # last one of the history, not an instance with the arguments of the translated one)
+      top = Top(*d['history'][d['pick']]); top.elaborate()
       tops = [Top(*a) for a in d['history']]
       for t in tops: t.elaborate()
       top2 = tops[d['pick']]
-      top = Top(*d['history'][d['pick']]); top.elaborate()
     else:
       top = Top(); top.elaborate()
       top2 = Top(); top2.elaborate()
